@@ -430,6 +430,7 @@ template <class T> inline Comp<T> to_comp(const GMat &A, bool byrow, Choice *sh 
         if (byrow) lists[e.first].push_back({j, to_T<T>(e.second)}); else lists[j].push_back({e.first, to_T<T>(e.second)});
     }
     S.ptr.assign(outer + 1, 0);
+    S.idx.reserve(8); S.val.reserve(8);     // an empty matrix still hands the library non-null arrays, as a real caller's malloc would
     for (int k = 0; k < outer; ++k) {
         auto &l = lists[k];
         if (sh && l.size() > 1) { for (size_t i = 0; i + 1 < l.size(); ++i) { size_t j = i + sh->below((unsigned)(l.size() - i)); std::swap(l[i], l[j]); } }
